@@ -18,6 +18,9 @@ func c09(r *Report) propMeta {
 	r.ArgHas("sample-exactly-size", grv, "bandrng.ChooseSomeMaxWeight", 2, 1, "^param:size")
 	r.ArgHas("sample-by-power", grv, "bandrng.ChooseSomeMaxWeight", 1, 1, "alloc:[]uint64")
 	r.ArgHas("sample-tries", grv, "bandrng.ChooseSomeMaxWeight", 3, 1, "field:Params.SamplingTryCount")
+	// ... and zero tries (which makes ChooseSomeMaxWeight return nil and the committee `size` empty addresses) is not an
+	// accepted parameter value (seed C09-4)
+	r.ParamsPositive("tries-positive", "x/oracle/types", map[string]string{"SamplingTryCount": "with zero tries ChooseSomeMaxWeight returns no indices and GetRandomValidators hands out `size` zero-value addresses"})
 	r.ArgHas("power-is-tokens", cl, "Int.Uint64", -1, 1, "call:ValidatorI.GetTokens")
 	r.Exists("result-maps-indexes-to-operators", grv, RetValEff(0, "make:slice", "param:size"), 1)
 	r.Gate("enough-members", grm, CallEff("Rng.NextUint64"), []Cond{
